@@ -1,6 +1,6 @@
 /-
   Decidable trigger predicates of the known findings about result-type generation
-  (C01-F2..F8, C08-F1; DESIGN.md §3 C01).  `Supported_01 x := ¬ (trig₁ x ∨ … ∨ trigₙ x)`:
+  (C01-F2..F12, C08-F1; DESIGN.md §3 C01).  `Supported_01 x := ¬ (trig₁ x ∨ … ∨ trigₙ x)`:
   the partial theorems of C01/C05/C08 are stated on the complement of these regions, and the
   harness asks the compiled driver (op `triggers`) for the very same predicates when it classifies
   a failure of the real code, so the regions exist exactly once.
@@ -189,6 +189,29 @@ def trigShadowedName (inp : Input) (r : Run) : Bool :=
   let imported := moduleOwnNames ++ enums ++ inp.env.scalars.map (·.typeName)
   classes.any (fun c => imported.contains c.name) || enums.any moduleOwnNames.contains
 
+/-- C01-F12: `_resolve_selection_set` meets a spread of a fragment on an OBJECT type `t` (or an inline fragment on `t`) while its
+    root type is an ABSTRACT type `a ∋ t`: directly inside an inline fragment `... on a { .. }` (below which the generator continues
+    with `a` as root), or directly inside a fragment definition on `a` that is used as a base class (mixin).  There the fragment is
+    "unpacked" (`t ≠ a`) but is neither on the root type nor on an abstract supertype of it — it is silently dropped, also for the
+    class that stands for `t` (only spreads / inline fragments at the TOP LEVEL of a field's selection set give `t` its own class) -/
+def objectPartIn (S : Schema) (frags : List Fragment) (a : String) (sub : List Selection) : Bool :=
+  sub.any fun x => match x with
+    | .inline (some t) _ _ _ => S.kindOf? t == some .object && (S.possibleTypes a).contains t
+    | .spread n _ => match findFragment? frags n with
+      | some f => S.kindOf? f.on == some .object && (S.possibleTypes a).contains f.on
+      | none => false
+    | _ => false
+
+def trigObjectInAbstract (inp : Input) (r : Run) : Bool :=
+  let S := inp.env.schema
+  (anyInDoc inp fun s => match s with
+    | .inline (some a) _ _ sub => S.isAbstract a && objectPartIn S inp.env.frags a sub
+    | _ => false)
+  || (let mixins := (okOuts r.ops ++ okOuts (r.frags.map (·.2))).foldl (fun acc o => setUnion acc o.st.mixins) []
+      mixins.any fun m => match findFragment? inp.env.frags m with
+        | some f => S.isAbstract f.on && objectPartIn S inp.env.frags f.on f.sel
+        | none => false)
+
 def triggers (inp : Input) : List String :=
   let r := run inp
   (if trigInlineNoType inp then ["inlineNoType"] else [])
@@ -200,6 +223,7 @@ def triggers (inp : Input) : List String :=
   ++ (if trigMixinAndUnpacked r then ["mixinAndUnpacked"] else [])
   ++ (if trigCondTypename inp then ["condTypename"] else [])
   ++ (if trigShadowedName inp r then ["shadowedName"] else [])
+  ++ (if trigObjectInAbstract inp r then ["objectInAbstract"] else [])
 
 /-- the region where the partial theorems of C01 / C05 / C08 are claimed -/
 def Supported_01 (inp : Input) : Prop := triggers inp = []
